@@ -124,6 +124,17 @@ func c14Run(c *h.Ctx) {
 		} else {
 			d = gen.Name(r, 5, 6)
 		}
+		if i%12 == 7 {
+			// type numbers far beyond 16 bits (any TLV-TYPE is a legal component type on the wire):
+			// around 2^32, 2^63 and 2^64, in one, two or all three names
+			huge := []uint64{1 << 32, 1<<32 + 8, 1<<63 - 1, 1 << 63, 1<<63 + 100, 1<<64 - 1}
+			for _, nm := range []enc.Name{a, b, d} {
+				if len(nm) > 0 && r.Intn(3) != 0 {
+					k := r.Intn(len(nm))
+					nm[k] = enc.Component{Typ: enc.TLNum(huge[r.Intn(len(huge))]), Val: append([]byte{}, nm[k].Val...)}
+				}
+			}
+		}
 		if !c.Case(id) {
 			continue
 		}
